@@ -8,11 +8,10 @@
 
   Core Lean only.  Transcendental functions are never computed here: `c i`, `s i` are the values
   `cos θᵢ`, `sin θᵢ` (resp. `tan`, `tanh`, …) computed by the caller; theorems carry `cᵢ² + sᵢ² = 1`.
-  The model follows the code as it stands, including the places where it raises (see FINDINGS_C08.md):
-    * `euler_rotation_order`: `re.subn` returns a tuple, so every string in the "Rz o Rx o Rz"
-      notation raises AttributeError (`err:type`);
-    * generic-order `euler_rotation_matrix` uses `torch.bmm`, which needs exactly one leading dimension;
-    * `euler_rotation_angles` stores the angle of the *right-most* rotation at index 0.
+  The model follows the code as it stands.  The defects F-08b/c/d of round 1 (FINDINGS_C08.md) were
+  repaired in /repo (commits b12e9ba, 2f08b31, 2831bdb) and the model follows the repaired code:
+  `re.sub` in `euler_rotation_order`, `torch.matmul` on `(…, 3, 3)` blocks in the generic fallback,
+  angle `k` of `euler_rotation_angles` at index `k`, `atan2` in 2-D.
 -/
 import Deepali.Model.Homog
 namespace Deepali
@@ -64,7 +63,7 @@ def matchNotation : List Char → Bool
   | ch :: rest => if isXYZ ch then matchNotationTail rest else false
   | [] => false
 
-/-- `re.sub(r"R([xyz])", "\\1", s)` — what line 332 intends (`re.subn(...)[0]`). -/
+/-- `re.sub(r"R([xyz])", "\\1", s)` @334. -/
 def subRxyzAux : Bool → List Char → List Char
   | false, [] => []
   | true, [] => ['R']
@@ -91,20 +90,10 @@ def matchXYZ3 : List Char → Bool
   | [a, b, c, '\n'] => isXYZ a && isXYZ b && isXYZ c
   | _ => false
 
-/-- affine.py:euler_rotation_order @320-336 **as it stands**: line 332 calls `.replace` on the
-    tuple returned by `re.subn`, so a string in the composition notation raises AttributeError. -/
+/-- affine.py:euler_rotation_order @322-338: `None` → "ZXZ"; a string in the composition notation
+    ("Rz o Rx o Rz", "X o Y o Z") is reduced to its letters (`re.sub` + `replace`), the result is
+    upper-cased and must match `^[XYZ][XYZ][XYZ]$`. -/
 def eulerRotationOrder (arg : Option (List Char)) (ndim : Nat) : Except String (List Char) :=
-  if ndim = 2 then .ok ['Z']
-  else if ndim ≠ 3 then .error "err:notimpl"
-  else
-    let order := arg.getD ['Z', 'X', 'Z']
-    if matchNotation order then .error "err:type"
-    else
-      let order := upperAscii order
-      if matchXYZ3 order then .ok order else .error "err:value"
-
-/-- the same function with the one-token repair `re.subn` → `re.sub` (FINDINGS_C08.md, F-08d). -/
-def eulerRotationOrderFixed (arg : Option (List Char)) (ndim : Nat) : Except String (List Char) :=
   if ndim = 2 then .ok ['Z']
   else if ndim ≠ 3 then .error "err:notimpl"
   else
@@ -116,59 +105,59 @@ def eulerRotationOrderFixed (arg : Option (List Char)) (ndim : Nat) : Except Str
 section
 variable {α : Type} [Add α] [Sub α] [Mul α] [Div α] [Neg α] [NatCast α]
 
-def vec2 (a b : α) : Vec 2 α := fun i => match i with
+def affVec2 (a b : α) : Vec 2 α := fun i => match i with
   | 0 => a | 1 => b
-def vec3 (a b c : α) : Vec 3 α := fun i => match i with
+def affVec3 (a b c : α) : Vec 3 α := fun i => match i with
   | 0 => a | 1 => b | 2 => c
-def mat2 (r0 r1 : Vec 2 α) : Mat 2 α := fun i => match i with
+def affMat2 (r0 r1 : Vec 2 α) : Mat 2 α := fun i => match i with
   | 0 => r0 | 1 => r1
-def mat3 (r0 r1 r2 : Vec 3 α) : Mat 3 α := fun i => match i with
+def affMat3 (r0 r1 r2 : Vec 3 α) : Mat 3 α := fun i => match i with
   | 0 => r0 | 1 => r1 | 2 => r2
 
 /-! ### euler_rotation_matrix -/
 
 /-- affine.py:euler_rotation_matrix @170-174 (D = 2). -/
-def eulerRotationMatrix2 (c s : α) : Mat 2 α := mat2 (vec2 c (-s)) (vec2 s c)
+def eulerRotationMatrix2 (c s : α) : Mat 2 α := affMat2 (affVec2 c (-s)) (affVec2 s c)
 
 /-- elementary rotations written by the generic fallback, affine.py @234-263. -/
 def rotX (c s : α) : Mat 3 α :=
   let o : α := ((1 : Nat) : α); let z : α := ((0 : Nat) : α)
-  mat3 (vec3 o z z) (vec3 z c (-s)) (vec3 z s c)
+  affMat3 (affVec3 o z z) (affVec3 z c (-s)) (affVec3 z s c)
 def rotY (c s : α) : Mat 3 α :=
   let o : α := ((1 : Nat) : α); let z : α := ((0 : Nat) : α)
-  mat3 (vec3 c z s) (vec3 z o z) (vec3 (-s) z c)
+  affMat3 (affVec3 c z s) (affVec3 z o z) (affVec3 (-s) z c)
 def rotZ (c s : α) : Mat 3 α :=
   let o : α := ((1 : Nat) : α); let z : α := ((0 : Nat) : α)
-  mat3 (vec3 c (-s) z) (vec3 s c z) (vec3 z z o)
+  affMat3 (affVec3 c (-s) z) (affVec3 s c z) (affVec3 z z o)
 
 def Axis.rot : Axis → α → α → Mat 3 α
   | .X => rotX | .Y => rotY | .Z => rotZ
 
 /-- affine.py @178-187 -/
 def eulerXYZ (c s : Vec 3 α) : Mat 3 α :=
-  mat3 (vec3 (c 1 * c 2) (-(c 1) * s 2) (s 1))
-       (vec3 (c 0 * s 2 + c 2 * s 0 * s 1) (c 0 * c 2 - s 0 * s 1 * s 2) (-(c 1) * s 0))
-       (vec3 (s 0 * s 2 - c 0 * c 2 * s 1) (c 2 * s 0 + c 0 * s 1 * s 2) (c 0 * c 1))
+  affMat3 (affVec3 (c 1 * c 2) (-(c 1) * s 2) (s 1))
+       (affVec3 (c 0 * s 2 + c 2 * s 0 * s 1) (c 0 * c 2 - s 0 * s 1 * s 2) (-(c 1) * s 0))
+       (affVec3 (s 0 * s 2 - c 0 * c 2 * s 1) (c 2 * s 0 + c 0 * s 1 * s 2) (c 0 * c 1))
 /-- affine.py @188-197 -/
 def eulerZYX (c s : Vec 3 α) : Mat 3 α :=
-  mat3 (vec3 (c 0 * c 1) (c 0 * s 1 * s 2 - c 2 * s 0) (s 0 * s 2 + c 0 * c 2 * s 1))
-       (vec3 (c 1 * s 0) (c 0 * c 2 + s 0 * s 1 * s 2) (c 2 * s 0 * s 1 - c 0 * s 2))
-       (vec3 (-(s 1)) (c 1 * s 2) (c 1 * c 2))
+  affMat3 (affVec3 (c 0 * c 1) (c 0 * s 1 * s 2 - c 2 * s 0) (s 0 * s 2 + c 0 * c 2 * s 1))
+       (affVec3 (c 1 * s 0) (c 0 * c 2 + s 0 * s 1 * s 2) (c 2 * s 0 * s 1 - c 0 * s 2))
+       (affVec3 (-(s 1)) (c 1 * s 2) (c 1 * c 2))
 /-- affine.py @198-207 -/
 def eulerZXY (c s : Vec 3 α) : Mat 3 α :=
-  mat3 (vec3 (c 0 * c 2 - s 0 * s 1 * s 2) (-(c 1) * s 0) (c 0 * s 2 + c 2 * s 0 * s 1))
-       (vec3 (c 2 * s 0 + c 0 * s 1 * s 2) (c 0 * c 1) (s 0 * s 2 - c 0 * c 2 * s 1))
-       (vec3 (-(c 1) * s 2) (s 1) (c 1 * c 2))
+  affMat3 (affVec3 (c 0 * c 2 - s 0 * s 1 * s 2) (-(c 1) * s 0) (c 0 * s 2 + c 2 * s 0 * s 1))
+       (affVec3 (c 2 * s 0 + c 0 * s 1 * s 2) (c 0 * c 1) (s 0 * s 2 - c 0 * c 2 * s 1))
+       (affVec3 (-(c 1) * s 2) (s 1) (c 1 * c 2))
 /-- affine.py @208-217 -/
 def eulerXZX (c s : Vec 3 α) : Mat 3 α :=
-  mat3 (vec3 (c 1) (-(s 1) * c 2) (s 1 * s 2))
-       (vec3 (c 0 * s 1) (-(s 0) * s 2 + c 0 * c 1 * c 2) (-(s 0) * c 2 - c 0 * c 1 * s 2))
-       (vec3 (s 0 * s 1) (c 0 * s 2 + s 0 * c 1 * c 2) (c 0 * c 2 - s 0 * c 1 * s 2))
+  affMat3 (affVec3 (c 1) (-(s 1) * c 2) (s 1 * s 2))
+       (affVec3 (c 0 * s 1) (-(s 0) * s 2 + c 0 * c 1 * c 2) (-(s 0) * c 2 - c 0 * c 1 * s 2))
+       (affVec3 (s 0 * s 1) (c 0 * s 2 + s 0 * c 1 * c 2) (c 0 * c 2 - s 0 * c 1 * s 2))
 /-- affine.py @218-227 -/
 def eulerZXZ (c s : Vec 3 α) : Mat 3 α :=
-  mat3 (vec3 (c 0 * c 2 - s 0 * c 1 * s 2) (-(c 0) * s 2 - s 0 * c 1 * c 2) (s 0 * s 1))
-       (vec3 (s 0 * c 2 + c 0 * c 1 * s 2) (-(s 0) * s 2 + c 0 * c 1 * c 2) (-(c 0) * s 1))
-       (vec3 (s 1 * s 2) (s 1 * c 2) (c 1))
+  affMat3 (affVec3 (c 0 * c 2 - s 0 * c 1 * s 2) (-(c 0) * s 2 - s 0 * c 1 * c 2) (s 0 * s 1))
+       (affVec3 (s 0 * c 2 + c 0 * c 1 * s 2) (-(s 0) * s 2 + c 0 * c 1 * c 2) (-(c 0) * s 1))
+       (affVec3 (s 1 * s 2) (s 1 * c 2) (c 1))
 
 /-- one pass of the loop body affine.py @233-263: `rot` for character `ch` and angle index `i`.
     A character other than X/Y/Z leaves `rot = new_empty(...)` unwritten (`err:uninit`; only
@@ -181,9 +170,10 @@ def elemRot (ch : Char) (i : Nat) (c s : Vec 3 α) : Except String (Mat 3 α) :=
     else .error "err:uninit"
   else if isXYZ ch then .error "err:value" else .error "err:uninit"
 
-/-- affine.py @229-264: `matrix = rot if i == 0 else torch.bmm(matrix, rot)`. -/
+/-- affine.py @232-266: `rotation = rot if rotation is None else torch.matmul(rotation, rot)`;
+    `matrix[..., :3] = rotation` after the loop (an empty order would assign `None`: TypeError). -/
 def eulerGenericLoop (c s : Vec 3 α) : List Char → Nat → Option (Mat 3 α) → Except String (Mat 3 α)
-  | [], _, none => .ok Mat.one            -- loop body never ran: identity written @229-231
+  | [], _, none => .error "err:type"
   | [], _, some m => .ok m
   | ch :: rest, i, acc => do
       let rot ← elemRot ch i c s
@@ -192,19 +182,16 @@ def eulerGenericLoop (c s : Vec 3 α) : List Char → Nat → Option (Mat 3 α) 
         | some m => m.mul rot
       eulerGenericLoop c s rest (i + 1) (some m)
 
-/-- affine.py:euler_rotation_matrix @175-264 (D = 3) for an already normalised `order`.
-    `leadNdim` = number of leading (batch) dimensions of `angles`; `torch.bmm` in the generic branch
-    accepts 3-D tensors only, i.e. `leadNdim = 1` (RuntimeError otherwise — F-08c); with
-    `homogeneous=True` both `matrix` and `rot` have shape `(N, 3, 4)` and `bmm` raises as well. -/
-def eulerRotationMatrix3 (order : List Char) (leadNdim : Nat) (homogeneous : Bool) (c s : Vec 3 α) :
-    Except String (Mat 3 α) :=
+/-- affine.py:euler_rotation_matrix @175-266 (D = 3) for an already normalised `order`, one batch
+    element (`torch.matmul` and the element-wise closed forms treat every leading index alike, and the
+    `homogeneous` flag only appends a zero column — `asRotationH`). -/
+def eulerRotationMatrix3 (order : List Char) (c s : Vec 3 α) : Except String (Mat 3 α) :=
   if order = ['X', 'Y', 'Z'] then .ok (eulerXYZ c s)
   else if order = ['Z', 'Y', 'X'] then .ok (eulerZYX c s)
   else if order = ['Z', 'X', 'Y'] then .ok (eulerZXY c s)
   else if order = ['X', 'Z', 'X'] then .ok (eulerXZX c s)
   else if order = ['Z', 'X', 'Z'] then .ok (eulerZXZ c s)
-  else if leadNdim = 1 ∧ homogeneous = false then eulerGenericLoop c s order 0 none
-  else .error "err:runtime"
+  else eulerGenericLoop c s order 0 none
 
 /-- `D = 2 if N == 1 else N` @164-166 followed by the `ndim` check of `euler_rotation_order`. -/
 def eulerDim (nAngles : Nat) : Except String Nat :=
@@ -223,28 +210,28 @@ structure EulerAngleArgs (α : Type) where
   a1 : α
   a2 : α × α
 
-def det2 (m : Mat 2 α) : α := m 0 0 * m 1 1 - m 0 1 * m 1 0
-def det3 (m : Mat 3 α) : α :=
+def affineDet2 (m : Mat 2 α) : α := m 0 0 * m 1 1 - m 0 1 * m 1 0
+def affineDet3 (m : Mat 3 α) : α :=
   m 0 0 * (m 1 1 * m 2 2 - m 1 2 * m 2 1) - m 0 1 * (m 1 0 * m 2 2 - m 1 2 * m 2 0)
     + m 0 2 * (m 1 0 * m 2 1 - m 1 1 * m 2 0)
 
 /-- `det.abs().allclose(1)` @298 with torch's defaults `rtol=1e-5, atol=1e-8` (passed as `tol`). -/
-def detIsOne [LT α] [DecidableRel (α := α) (· < ·)] (det tol : α) : Bool :=
+def affineDetIsOne [LT α] [DecidableRel (α := α) (· < ·)] (det tol : α) : Bool :=
   let z : α := ((0 : Nat) : α)
   let a := if det < z then -det else det
   let e := a - ((1 : Nat) : α)
   let e := if e < z then -e else e
   !(tol < e)
 
-/-- affine.py:euler_rotation_angles @302-303 (D = 2): `acos(matrix[0, 0])`. -/
-def eulerRotationAngles2 (m : Mat 2 α) : α := m 0 0
+/-- affine.py:euler_rotation_angles @304-305 (D = 2): `atan2(matrix[1, 0], matrix[0, 0])` as `(y, x)`. -/
+def eulerRotationAngles2 (m : Mat 2 α) : α × α := (m 1 0, m 0 0)
 
-/-- affine.py:euler_rotation_angles @306-316 (D = 3). -/
+/-- affine.py:euler_rotation_angles @308-318 (D = 3). -/
 def eulerRotationAngles3 (order : List Char) (m : Mat 3 α) : Except String (EulerAngleArgs α) :=
   if order = ['X', 'Z', 'X'] then
-    .ok ⟨(m 0 2, -(m 0 1)), m 0 0, (m 2 0, m 1 0)⟩
+    .ok ⟨(m 2 0, m 1 0), m 0 0, (m 0 2, -(m 0 1))⟩
   else if order = ['Z', 'X', 'Z'] then
-    .ok ⟨(m 2 0, m 2 1), m 2 2, (m 0 2, -(m 1 2))⟩
+    .ok ⟨(m 0 2, -(m 1 2)), m 2 2, (m 2 0, m 2 1)⟩
   else .error "err:notimpl"
 
 /-! ### scaling_transform, shear_matrix, translation -/
